@@ -1,38 +1,78 @@
 check("C13",
+      "[Round 5: the negotiation message codec is inside the model by TRANSLATION: Negotiation.parseLines and sendBlock are executed symbolically, "
+      "statement by statement, into Gallina over models of bytes.split/index/lower/lstrip, slices, six.ensure_str (strict UTF-8), dict stores "
+      "(g_negcodec.py -> gen/NegCodecGen.v), together with the ten block keys as written and as read, the dispatch / input guard / error report of "
+      "dataReceived, the version stamped on error blocks, every store to receive_phase / send_phase and the versioned methods of the class. "
+      "New theorems (all closed, unbounded): C13_block_round_trip -- every block sendBlock can emit, followed by ANY bytes, is cut at the first "
+      "terminator of the stream and parses back to itself; C13_deliver_any_chunking -- the same composed with the block splitter for every "
+      "packetisation; C13_parse_total; C13_keys_written_are_read; out-of-order blocks by content (decision where a hello is expected, hello "
+      "where the decision is expected) are refused with the negotiation error; C13_error_block_understood; the phase machine "
+      "(C13_block_advances_or_ends: a block in any legal state is ignored, advances along the legal order, or ends the attempt and nothing else "
+      "changes; C13_legal_run, C13_dispatch_total_on_legal, C13_ended_stays_ended, C13_phase_stores_known); the decider for ANY two endpoints "
+      "(C13_decider_count: never two, none iff equal ids, then both fail); C13_agreement_exact (identical parameters IFF compatible, otherwise "
+      "both fail and each failure is a negotiation error, under the class invariant asserted by __init__); C13_slave_checks_own_range_refuted "
+      "(a decider that does not follow the protocol can make the non-decider run a version outside its own range: replayed on the real code on "
+      "every run, reported as a note) with C13_honest_decision_in_range. New correspondences: translated parseLines / sendBlock, int(), "
+      "str.split(), handleENCRYPTED+evaluateHello and acceptDecision on the real class with random and damaged blocks (~1000 cases), the phase "
+      "machine against the two real Negotiation objects of every sweep configuration (1512 comparisons); the oracle now compares the CONTENTS of "
+      "both vocabulary tables of both Brokers.] "
       "[Round 3: the header verdict of Negotiation.dataReceived (refuse / wait / split) is read by symbolic execution of the statements between the terminator search and the split and proved equal to its specification (C13_header_verdict), so any arrangement of the tests translates; a refused decision must leave an established connection and the connection records untouched (oracle on real Tubs, 8 damaged-decision families x both first-dial directions).] Theorems (Coq, unbounded): exactly one decider for distinct tub ids; for every pair of endpoints (any version ranges, vocab ranges, "
       "hash functions) negotiate yields identical parameters = highest common version and vocab index with matching hash, or failure on both "
       "sides; success when compatible; spec of the translated best_overlap/check_inrange; 4096 header cap. The model is tied to the code by "
-      "translation (best_overlap, check_inrange, master comparison, call-site shape facts, constants) and by a correspondence sweep of the real "
+      "translation (best_overlap, check_inrange, master comparison, call-site shape facts, constants, message codec, dispatch) and by a correspondence sweep of the real "
       "Tub/Negotiation pair (756 configurations incl. hash mismatch) evaluated against the model with vm_compute; chunkings and 21 malformed-block "
       "families are checked directly on the implementation.",
-      "Modelled, not verified: TLS (no-op startTLS, peer certificate supplied by the harness), Twisted's Protocol plumbing, parseLines text "
-      "parsing (exercised by the malformed families, not modelled).",
+      "Modelled, not verified: TLS (no-op startTLS, peer certificate supplied by the harness), Twisted's Protocol plumbing, sha1 (the hash is a "
+      "number in the model; 'matching contents' = equal hashes). A str is modelled by its UTF-8 bytes; str.lower on ASCII keys; int() / str.split() "
+      "on ASCII text (the model abstains elsewhere); the decimal round trip int('%d' % n) = n is tied by the correspondence, not proved, so the "
+      "wire-level run (lib/NegWire.v wire_negotiate) is related to the record-level theorem by evaluation only. The phase machine abstracts block "
+      "content to the handler's verdict; that a refusal leaves the Tub's tables untouched is checked on the real code only.",
       "Coq proof over translated functions + correspondence (vm_compute) against real Negotiation", "DESIGN.md 5/C13")
 
 check("C05",
       "Theorems (Coq, for an uninterpreted certificate hash and all roles / presentations / claims / dialled ids): a hello is accepted for t only if "
       "the LEAF certificate of the handshake hashes to t (extra certificates the peer sends along never matter), the peer claimed t and (client) t is "
       "the dialled id; every mismatch rejects (exact iff); for every sequence of header blocks in every chunking from a peer that keeps sending after "
-      "a rejection, every key given to Tub.brokerAttached is proven (receive-loop invariant over the phases); two-ended session: any key ever "
+      "a rejection, every key given to Tub.brokerAttached is proven (receive-loop invariant over the phases). [Round 5: the same over RAW BYTES from "
+      "the first byte of the connection -- C05_bytes_attach_proven / _no_attach_before_identity / _at_most_one_attach / _plaintext_knows_nothing: "
+      "for ARBITRARY bytes in ANY chunking (also after errors), for every UTF-8 decoder, every behaviour of the non-identity checks and every "
+      "redirect table (all universally quantified), every key registered is the hash of the leaf certificate (client: and the dialled id), no key is "
+      "registered before a received block passed the identity checks of evaluateNegotiationVersion1, at most one key per transport, nothing is "
+      "believed in the PLAINTEXT phase; the model is Negotiation.dataReceived itself: translated block-splitter tests, translated phase dispatch, "
+      "handlePLAINTEXTServer / handlePLAINTEXTClient translated statement by statement (incl. Listener.lookupTubID's test, the redirect branch and "
+      "their exception classes), parseLines, handleENCRYPTED, handleDECIDING.  C05_without_asserts(+_certificate_still_required): the same "
+      "identity statements translated as python -O runs them accept, besides proven ids, exactly the anonymous peer on a listener, and nothing "
+      "unproven once a certificate is present.  C05_inbound_reference_history: for every history of my-reference sequences (new and known clids, "
+      "with / without URL) every reference tracker that carries a URL names the connection's key; what a my-reference for a KNOWN clid does to the "
+      "tracker's URL is read from Broker.getTrackerForYourReference.]  Two-ended session: any key ever "
       "registered at either end is proven, mismatches leave no connection, honest pairs connect; invariant over all histories of Tub.brokers; "
       "getReference and inbound reference URLs only over proven connections; for every history of getReference requests made before "
       "startService (queued) and after it, each request is answered for its OWN FURL (connection key and object name); with several lookups pending and connections -- also "
       "inbound ones from the Tubs being dialled (crossed connections) -- completing / failing in any order, a lookup for X is only answered with a "
       "Broker whose leaf certificate hashes to X. Translated from the AST on every run: the binding "
       "of the SturdyRef in startService's resumption loop, the identity fragment of "
-      "evaluateNegotiationVersion1, where receive_phase changes around it (handleENCRYPTED, error handler, non-deciding end), which certificate "
-      "crypto.peerFromTransport returns, the attach key of switchToBanana, the listener lookup, the inbound-url check. Run on real Tubs over the "
+      "evaluateNegotiationVersion1 (with and without its asserts), where receive_phase changes around it (handleENCRYPTED, error handler, non-deciding end), which certificate "
+      "crypto.peerFromTransport returns, the attach key of switchToBanana, the listener lookup, the inbound-url check, the two plaintext handlers, "
+      "the phase dispatch, the known-clid URL policy. Run on real Tubs over the "
       "in-memory network and compared with the model by vm_compute: the role x leaf x extra-chain x claim x dialled-id x GET-id matrix (968 cells "
       "quick), ~2000 raw-peer scripts (all block kinds, all chunkings, in-flight bytes delivered after hang-up; phase, theirTubRef and attached keys "
-      "after every chunk), table histories interleaving Tub peers and raw peers, ~500 getReference request histories (several Tubs / names queued before start); ~760 crossed-connection histories on four Tubs (per-link scheduling, every completion order; Tub.brokers, "
+      "after every chunk), ~1700 byte scripts (57 block kinds incl. every plaintext-block variant, hybrid hello+decision blocks, duplicate / "
+      "case-changed / undecodable my-tub-id lines, over-long blocks, redirects; byte-granular cuts; phase, theirTubRef, attached keys AND exception "
+      "class after every chunk vs the byte-level model), ~100 my-reference histories (tracker table after every step), "
+      "table histories interleaving Tub peers and raw peers, ~500 getReference request histories (several Tubs / names queued before start); ~760 crossed-connection histories on four Tubs (per-link scheduling, every completion order; Tub.brokers, "
       "tubConnectors and answered lookups after every event vs the model); a "
       "per-reference oracle judges every getReference result (Tub.brokers key, leaf certificate, reference URL, object a call reaches) and an oracle with an independently computed hash judges every "
       "brokerAttached and every table state; 23 malformed-block families, forged URLs, gifts.",
       "Trusted: the TLS handshake proves possession of the LEAF certificate's key (the tree's own crypto.peerFromTransport and twisted's "
-      "Certificate.peerFromTransport run on a fake OpenSSL handle: leaf + extra chain certificates); Tubs always have a certificate; no listener "
-      "redirects; failure classes of the 101 / missing-certificate / error-block / timeout paths tied by correspondence only. The anonymous-peer "
-      "refusal rests on twisted raising CertificateError and on `assert theirTubID` (would vanish under python -O).",
-      "Coq proof over AST-translated identity checks and phase placement + exhaustive cell matrix, adversarial raw-peer scripts and table histories "
+      "Certificate.peerFromTransport run on a fake OpenSSL handle: leaf + extra chain certificates); Tubs always have a certificate; "
+      "Negotiation._test_options unset. In the byte-level theorems UTF-8 decoding and all non-identity checks are universally quantified parameters "
+      "(nothing assumed); the correspondence instantiates them concretely for ASCII / digit inputs only. parseLines and the statement order inside "
+      "handleENCRYPTED / handleDECIDING are hand-modelled (tied by the byte correspondence); failure classes of the missing-certificate / "
+      "error-block / timeout paths tied by correspondence only. The anonymous-peer "
+      "refusal rests on twisted raising CertificateError and on `assert theirTubID` (C05_without_asserts says what remains under python -O). "
+      "Tub.getReference's key path (SturdyRef.getTubRef, TubRef equality / hash) is tied by shape facts, not translated.",
+      "Coq proof over AST-translated identity checks, plaintext handlers, phase dispatch and phase placement (invariant of the byte-level receive loop) "
+      "+ exhaustive cell matrix, adversarial raw-peer block and byte scripts, reference and table histories "
       "on real Tubs (vm_compute correspondence)", "DESIGN.md 5/C05")
 
 check("C07",
@@ -64,17 +104,30 @@ check("C19",
       "Coq proof over AST-translated op orders and guards + in-Coq correspondence of OS-level traces + sentinel-directory oracle", "DESIGN.md 5/C19")
 
 check("C04",
-      "Theorems (Coq, 13, over all op sequences Issue/StallRelease/Deliver/GiftReady/Turn): the calls entered on the receiver are a subsequence of "
-      "the issue order (strictly increasing, NoDup), head-of-line blocking, at most one delivery waiting, no silent loss, sender never idle with "
-      "queued work, receiver never stuck, every reachable state can be settled, LocalReferenceable order. The model's enqueue/dequeue are driven by "
-      "queue disciplines translated as shape facts from the AST of slicers/root.py (RootSlicer.__next__ / send), broker.py (scheduleCall / "
-      "doNextCall, head-of-line guard) and eventual.py on every run, so e.g. pop() instead of pop(0) regenerates PopBack and breaks the proofs. "
-      "Step-by-step trace validation against a real Broker pair (sendQueue, slicer stack, inboundDeliveryQueue, waiting flag, entered list after "
-      "every step; about 10 k step comparisons quick) by vm_compute; direct oracle on entry order of instrumented remote_* methods incl. streaming "
-      "slicers that yield Deferreds, real third-party gifts over three Tubs, schema rejections, re-entrant calls, random chunking; shrinking.",
-      "Modelled, not verified: in-order delivery by the wire, Twisted Deferred chaining order, the receive parser (one Deliver step; tied by trace "
-      "validation), connection loss (C03), gifts resolved only after their call is completely received.",
-      "Coq invariant proofs over op lists on translated queue disciplines + step-by-step trace validation on a real Broker pair", "DESIGN.md 5/C04")
+      "Theorems (Coq, 18, over all op sequences Issue/StallRelease/Deliver/GiftReady/Turn/Disconnect): the calls entered on the receiver are a "
+      "subsequence of the issue order (strictly increasing, NoDup); at every moment entered ++ waiting ++ dropped ++ inbound queue ++ wire ++ "
+      "call being serialized (possibly paused in a streaming argument) ++ sender queue is ONE strictly increasing sequence; head-of-line "
+      "blocking; at most one delivery waiting; a delivery with n third-party references becomes runnable exactly when all n have resolved and "
+      "is refused at the first failure (for all n and all result sequences); after the receiver loses the connection nothing is entered any "
+      "more, loss is final, deliveries are dropped only by a loss; no silent loss; sender never idle with queued work; receiver never stuck; "
+      "every reachable state of a live connection can be settled; the eventual queue is an order-preserving channel. The Deferred network of "
+      "a delivery is TRANSLATED statement by statement on every run from util.AsyncAND.__init__/_cbDeferred and "
+      "call.ArgumentUnslicer.updateChild (symbolic execution into one Coq term each); queue disciplines, the disconnected guard of doNextCall, "
+      "Broker.finish's queue drop, the wiring of receiveClose / TheirReferenceUnslicer._ready/_failed / ackGift are shape facts from the AST "
+      "of slicers/root.py, broker.py, call.py, referenceable.py, eventual.py (fail closed), so e.g. pop() instead of pop(0), a dropped "
+      "`remaining -= 1` or a missing disconnected guard regenerate different definitions and break the proofs. Step-by-step trace validation "
+      "against a real Broker pair (sendQueue, slicer stack, inboundDeliveryQueue, waiting flag, entered list, disconnected flag, and per "
+      "unready delivery num_unreferenceable_children / AsyncAND.remaining / _fired / unresolved gifts after every step; about 13 k step "
+      "comparisons quick) and the translated AsyncAND against the real class on all result sequences up to 4 components, by vm_compute; "
+      "direct oracle on entry order of instrumented remote_* methods incl. streaming slicers that yield Deferreds, one or two gifts per call "
+      "resolved/failed in any order, real third-party gifts over three Tubs, schema rejections, re-entrant calls, receiver/sender connection "
+      "loss, virtual time passing, every Broker/Banana configuration attribute that the reference tree lacks set to non-default values, random "
+      "chunking; shrinking.",
+      "Modelled, not verified: in-order delivery by the wire, Twisted Deferred chaining order, the receive parser (one Deliver step = the bytes "
+      "up to the end of the next call; tied by trace validation; chunk independence of the parser is C07), a sender that is cut off (oracle "
+      "only), gifts resolved only after their call is completely received, at most two gifts per call at argument level.",
+      "Coq invariant proofs over op lists on translated queue disciplines and a statement-by-statement translated AsyncAND/updateChild + "
+      "step-by-step trace validation on a real Broker pair", "DESIGN.md 5/C04")
 
 check("C06",
       "Theorems (Coq, 18, over all states / messages / interleaved histories on two connections): a call enters only the broker's three methods "
@@ -265,37 +318,56 @@ check("C03",
       "Coq proof over an interpreter of AST-translated method bodies + trace validation (vm_compute) of real Broker pairs under byte cuts", "DESIGN.md 5/C03")
 
 check("C02",
-      "Theorems (Coq): checkObject c o = true <-> satisfies c o (declarative relation over all 13 constraint constructors); checkAllArgs spec "
-      "(no more positionals than declared, no name bound twice, every bound name declared and satisfying its constraint, every required argument "
-      "bound); for all method schemas and ARBITRARY wire trees (any type bytes, sizes, arities, forged back-references) recv_call = Invoke a kw -> "
-      "checkAllArgs ms a kw = Ok (rests on the translated dominance shape fact of Broker._doCall), hence every value a method body receives "
-      "satisfies its declared constraint. The result side is refuted on the faithful model (C02_result_refuted: four witnesses, D6, known finding) "
-      "and proved only for constraints whose token-level tasters are complete (C02_result_partial); one-call-only is refuted for strictTaster "
-      "constraints (known finding). Tie: the numeric branches of IntegerConstraint.checkObject and the integer branch of sendToken (PyLite), every "
-      "length / fullness comparison of every checkObject and Unslicer, the taster tables and their construction, Constraint.checkToken's "
-      "comparator, strictTaster / opentypes of every class, the setConstraint assertions, the UnicodeUnslicer size guard, getPositionalArgConstraint / "
-      "checkAllArgs comparators, the _doCall dominance, 'AnswerUnslicer contains no checkObject', 'ReferenceUnslicer re-checks' are translated on "
-      "every run; 350 hand-encoded call streams and 237 answer streams on a real Broker pair compared with the model by vm_compute. Direct oracle: "
-      "instrumented remote_* methods and callbacks judged by the real checkers and an independent reference semantics; a refused call errbacks with "
-      "Violation and a sibling call still works.",
-      "Values are trees (sharing only in fixed oracle cases); regexp constraints, RemoteInterface/Copyable constraints, Shared and "
-      "__ignoreUnknown__/__acceptUnknown__ are outside the model; 'a Violation leaves other calls untouched' is oracle-checked (the model has no "
-      "broker queue).",
-      "Coq proof (checkObject <-> satisfies, checkAllArgs spec, dominance shape fact) + hand-encoded token streams on a Broker pair vs model", "DESIGN.md 5/C02")
+      "Theorems (Coq): checkObject c o = true <-> satisfies c o (declarative relation over all 14 constraint constructors); checkAllArgs spec "
+      "(no more positionals than declared, no name bound twice, every bound name DECLARED and satisfying its constraint, every required argument "
+      "bound) for every method schema INCLUDING the __ignoreUnknown__/__acceptUnknown__ flags (C02_unknown_flags_never_accept: neither flag ever "
+      "lets an undeclared name reach the body). The receive path is ArgumentUnslicer as the state machine it is (count -> positional values -> "
+      "keyword name -> keyword value, one step per child of the `arguments` sequence): for ALL children lists -- any count token (too large, too "
+      "small, not an INT, missing), values where names are expected and vice versa, sequences that stop anywhere, forged back-references -- "
+      "recv_arguments = Invoke a kw -> checkAllArgs ms a kw = Ok (C02_args_any_stream, rests on the translated dominance shape fact of "
+      "Broker._doCall), hence every value a method body receives satisfies its declared constraint; C02_counted_streams proves that recv_call "
+      "(positional/keyword trees) IS this machine on the streams whose count equals the number of positional trees (refinement by induction), so "
+      "no assumption about the count remains. The result side is refuted on the faithful model (C02_result_refuted: four witnesses, D6, known "
+      "finding) and proved only for constraints whose token-level tasters are complete (C02_result_partial); one-call-only is refuted for "
+      "strictTaster constraints and for the two unknown-argument flags (C02_unknown_flags_refuted: `assert accept` -> connection lost; "
+      "None.checkObject -> AttributeError; known findings) and PROVED where it holds (C02_one_call_violation: for schemas of non-strict token "
+      "constraints Int/Number/ByteString without flags every counted stream either invokes with checked arguments or fails exactly that call with "
+      "a Violation -- through the taster tables / strict flags / checkToken, not through _doCall). Tie: ArgumentUnslicer.checkToken/receiveChild/receiveClose are EXECUTED statement by "
+      "statement by the generator on all 370 small concrete states and the machine's parameters (stage comparison, zero-count guard, first index, "
+      "assert accept) are those reproducing every effect (rewrites that keep the effects keep the parameters); getKeywordArgConstraint's flag "
+      "order, checkAllArgs' per-name loop, the numeric branches of IntegerConstraint.checkObject and sendToken (PyLite), every length / fullness "
+      "comparison, taster tables, Constraint.checkToken's comparator, strictTaster / opentypes, setConstraint assertions, the UnicodeUnslicer size "
+      "guard, the _doCall dominance, 'AnswerUnslicer contains no checkObject', 'ReferenceUnslicer re-checks' are translated on every run; ~1000 "
+      "hand-encoded `arguments` child lists (110 framing cases with hostile counts, 36 flag cases, 256 required/Optional x positional-count x "
+      "keyword-subset bindings, generated single-point mutations incl. perturbed counts) and ~560 answer streams (incl. 160 ChoiceOf-over-container "
+      "result constraints) on a real Broker pair compared with the machine by vm_compute. Direct oracle: instrumented remote_* methods and "
+      "callbacks judged by the real checkers and an independent reference semantics; a refused call errbacks with Violation and a sibling call "
+      "still works.",
+      "Regexp constraints, Copyable/Failure attribute constraints, Shared, their-reference gifts and the CallUnslicer stages before the arguments "
+      "(reqID / object / method-name lookup) are outside the model; RemoteInterface arguments: receiver's side only; 'a Violation leaves other "
+      "calls untouched' is oracle-checked (the model has no broker queue); wire trees carry ASCII text (a keyword name that is not valid UTF-8 "
+      "drops the connection: oracle-only finding).",
+      "Coq proof (checkObject <-> satisfies, checkAllArgs spec, ArgumentUnslicer machine + refinement, dominance shape fact) + hand-encoded token streams on a Broker pair vs model", "DESIGN.md 5/C02")
 
 check("C12",
       "Theorems (Coq): for all constraint trees c and values o with wf c, owf o, c12_guard c o: checkObject c o = true -> the receiver's token-level "
-      "checks accept every token of slice o and deliver o (induction on c; boundaries: the 2^31 INT/LONGINT split of the translated sendToken, "
-      "bytelen n <= maxBytes from long_to_bytes_length, maxLength, maxKeys, tuple arity, UTF-8 size <= 6*maxLength); the same end to end for a "
-      "one-argument call; four refuted witnesses (ChoiceOf over OPEN-sequence alternatives = D7a, AnyStringConstraint with text, nested Optional, "
-      "Any with an int >= 2^8000: known findings). c12_guard excludes exactly those regions. Tie: as C02 (shared gen/SchemaGen.v); 447 real "
-      "callRemote calls vs send_call + recv_call, 900 checkObject differentials (inbound and outbound, also against an independent reference "
-      "semantics), 260 taste cases vs real checkToken, 50 int_token cases vs real sendToken bytes, by vm_compute. Direct oracle: if the real "
-      "outbound checkAllArgs accepts, the call is delivered with canonically equal arguments, never a Violation or a lost connection; if the sender "
-      "rejects, nothing is sent; 22 boundary cases, shared-list case, 420 generated calls built through the public schema vocabulary.",
-      "The call-level theorem covers one-argument methods (multi-argument and keyword calls by correspondence); values are trees; regexp, "
-      "RemoteInterface/Copyable constraints outside the model.",
-      "Coq induction on constraint trees over translated sendToken split / taster tables / comparators + real callRemote differentials", "DESIGN.md 5/C12")
+      "checks accept every token of EVERY serialization of o (any connection vocabulary: VOCAB tokens carry the index; any number of repeated "
+      "list/tuple/set/dict objects as references) and deliver o (induction on c; boundaries: the 2^31 INT/LONGINT split of the translated "
+      "sendToken, bytelen n <= maxBytes, maxLength, maxKeys, tuple arity, UTF-8 size <= 6*maxLength); the same END TO END FOR EVERY METHOD SCHEMA "
+      "(C12_call_delivered: any number of arguments, Optional ones, either unknown-argument flag, any positional/keyword mix: outbound "
+      "checkAllArgs, slice, ArgumentUnslicer's per-argument constraints, inbound checkAllArgs, invocation with the same objects), also stated on "
+      "the children of the `arguments` sequence as the receiver's state machine consumes them (C12_call_delivered_stream, via C02's refinement); "
+      "AND FOR RESULTS (C12_result_delivered: what Broker._callFinished's checkResults lets through is accepted by the caller's AnswerUnslicer and "
+      "handed to the callback); four refuted witnesses (ChoiceOf over OPEN-sequence alternatives = D7a, AnyStringConstraint with text, nested "
+      "Optional, Any with an int >= 2^8000: known findings). c12_guard excludes exactly those regions. Tie: as C02 (shared gen/SchemaGen.v, incl. "
+      "the _callFinished dominance of checkResults over the answer); ~1100 real callRemote calls vs send_call + recv_call (54 fixed + generated "
+      "calls with one container object -- frozensets included -- occurring twice), ~90 echoed results vs send_answer + recv_answer, 900 checkObject "
+      "differentials (inbound and outbound, also against an independent reference semantics), 260 taste cases vs real checkToken, 50 int_token "
+      "cases vs real sendToken bytes, by vm_compute. Direct oracle: if the real outbound checkAllArgs accepts, the call is delivered with "
+      "canonically equal arguments (and an echoed result comes back), never a Violation or a lost connection; if the sender rejects, nothing is sent.",
+      "Cyclic values, regexp / Copyable constraints, Shared and the outbound side of RemoteInterface constraints (live Referenceables: oracle "
+      "only, finding remote-subinterface-rejected) are outside the model; ms_wf assumes distinct argument names (python cannot declare otherwise).",
+      "Coq induction on constraint trees over translated sendToken split / taster tables / comparators, lifted to whole calls and results + real callRemote differentials", "DESIGN.md 5/C12")
 
 check("C16",
       "Theorems (Coq, 8, over all permitted event sequences Start/AttemptOk u/AttemptFail z/Lost/TimerExpired/Elapse/Reset/Stop; exact rational arithmetic): "
@@ -327,25 +399,43 @@ check("C16",
       "Coq invariant induction over the translated state machine + exhaustive enumeration of permitted sequences compared inside Coq", "DESIGN.md 5/C16")
 
 check("C01",
-      "[Round 3: C01_discard_slice / C01_discard_rest_of_rejected -- whatever lies in a discarded part, the receiver's object counter advances by exactly the OPENs the sender spent on it; rejected-message preludes before graphs with sharing; vocabulary tables from arbitrary word lists (duplicates, gaps).] Theorems (Coq, unbounded; closed under the global context): for every well-formed canonical object term (nested "
+      "[Round 5: the receiver's pending-completion mechanism is inside the model (lib/ObjDefer.v: Deferred table, placeholders, update callbacks with their "
+      "return-value chain, num_unreferenceable_children, complete() cascades) with C01_deferred_refines / C01_deferred_sound_partial; end-to-end composition "
+      "with C07 for every packetisation (C01_end_to_end_any_chunking); the in-band vocabulary switch is a theorem (C01_vocab_switch_in_band).] "
+      "Theorems (Coq, unbounded; closed under the global context; guard = wf_obj_wide: references resolve in their scope, dict/Copyable shapes, "
+      "minus the known-defective region; cycles through nested tuples are inside since round 5): for every well-formed canonical object term (nested "
       "list/tuple/set/frozenset/dict/registered Copyable/call scopes, ints of any magnitude, floats as 64-bit words, "
       "bytes/text/bool/None/Decimal, back-references incl. self-containing containers) the receiver's unslicer stack "
       "machine, in any admissible state, consumes exactly the sender's token sequence and rebuilds exactly the denoted "
       "graph (same node numbers, kinds, children, pointers: value, type and sharing) -- C01_run_slice, "
-      "C01_slice_unslice(_list); composed with the token/byte layer (C01_bytes_roundtrip, via stream_roundtrip); under any "
-      "vocabulary table with distinct indices (C01_vocab_transparent, C01_roundtrip_any_vocab); per-call scope: a call "
+      "C01_slice_unslice(_list); Deferred level: for EVERY token stream and state the Deferred-level receiver refines that machine "
+      "(C01_deferred_refines; firing a Deferred with any depth of cascade is invisible: C01_deferred_firing_is_invisible), hence for every "
+      "graph a sender can emit, deferred tuples/frozensets included (wide guard, contains the strict one), whatever it delivers is exactly "
+      "the denoted graph (C01_deferred_sound(_list)_partial; progress is per case, C01_deferred_progress_refuted shows it does not follow "
+      "from the guard); composed with the token/byte layer (C01_bytes_roundtrip) and with C07's byte-level receiver for EVERY packetisation "
+      "of the sender's bytes (C01_end_to_end_any_chunking(_deferred_partial), C01_chunks_decode); under any "
+      "vocabulary table with distinct indices (C01_vocab_transparent, C01_roundtrip_any_vocab) and any interleaving of tokens and in-band "
+      "table replacements (C01_vocab_switch_in_band); per-call scope: a call "
       "refers only to objects opened inside itself and a later call's reference to anything outside it is refused "
-      "(C01_scope_refs_are_local, C01_scope_isolation_receiver); two refuted witnesses for the known-defective region "
-      "(tuple referenced from a Copyable attribute / dict key it contains). Chunk independence of the byte-level receiver "
-      "is C07's theorem. Tie: opentype / trackReferences / setObject-in-start / scoped classes / bool tokens translated "
-      "from the source on every run plus about 60 fail-closed shape facts; correspondence by vm_compute on 354 (quick) / "
-      "2224 (thorough) generated graphs, vocab switches and Broker calls: sender bytes = encode_stream(envocab(slice("
-      "canon_py g))), canon(unslice(decode real bytes)) = term, and the real receiver's graph under 1-chunk / bytewise / "
+      "(C01_scope_refs_are_local, C01_scope_isolation_receiver); rejected messages keep the numbering in step (C01_discard_slice, "
+      "C01_discard_rest_of_rejected); refuted witnesses for the known-defective region on both machines "
+      "(tuple referenced from a Copyable attribute / dict key it contains). Tie: opentype / trackReferences / setObject-in-start / "
+      "which start() registers a Deferred / whether each update() returns its argument (callback chain) / scoped classes / bool tokens translated "
+      "from the source on every run plus about 75 fail-closed shape facts; correspondence by vm_compute on ~1140 (quick) / "
+      "~2300 (thorough) generated graphs, vocab switches and Broker calls: sender bytes = encode_stream(envocab(slice("
+      "canon_py g))), canon(unslice(decode real bytes)) = term, canon(dunslice(..)) = term (Deferred-level model delivers what the "
+      "implementation delivered), graphs the implementation refuses / never completes (known findings, hand-written token streams no sender "
+      "emits: wait cycles, self-containing tuple) are not delivered by the model either, and the real receiver's graph under 1-chunk / bytewise / "
       "random chunkings matched against the term; direct oracle: rooted graph isomorphism with type() at every node and "
-      "list/dict/set identity preserved both ways, no sharing between two calls.",
-      "Modelled, not verified: UTF-8 and struct '!d' codecs, Decimal(str(d)), Twisted Deferred completion of tuples / "
-      "frozensets in cycles (graphs whose tuple directly holds a reference to a still-open immutable are outside the "
-      "theorem guard: correspondence + oracle only), Python hash/== for dict/set membership, Copyable registration. "
-      "canon-inverts-denotation and the in-band set-vocab switch are checked per case by vm_compute, not proved in general.",
-      "Coq proof (nested induction over object terms, invariant over receiver states) + translation + correspondence + graph-isomorphism oracle",
+      "list/dict/set identity preserved both ways, no sharing between two calls, Copyables registered after the connection was made, "
+      "one object of every value kind at several places.",
+      "Modelled, not verified: the SENDER is not a machine in the model (`slice` acts on the canonical term; ScopedSlicer's id() table, "
+      "slicerForObject/registerRefID are tied by translated flags, shape facts and the sender-bytes correspondence only; C01_scope_refs_are_local is a "
+      "statement about the guard); UTF-8 and struct '!d' codecs, Decimal(str(d)), Twisted's Deferred by its contract (callbacks once, synchronously, "
+      "in registration order, each given the previous return value), Python hash/== for dict/set membership, Copyable registration, "
+      "ready_deferred/AsyncAND (always None for value types). ObjDefer tests that a placeholder is where its callback expects it (defensive; "
+      "compared per case); a reference to a frozenset (never emitted: tr_frozen = false, translated) and a Deferred child of a call scope "
+      "are refused by the model. Progress of the Deferred-level receiver and canon-inverts-denotation are checked per case by vm_compute, not proved in general.",
+      "Coq proof (nested induction over object terms, invariant over receiver states; step-wise refinement Deferred machine -> pointer machine; "
+      "reuse of C07's chunk-independence theorem) + translation + correspondence + graph-isomorphism oracle",
       "DESIGN.md 5/C01")
